@@ -86,7 +86,9 @@ type exploreGroup struct {
 func exploreGroupsFor(id string) []exploreGroup {
 	switch id {
 	case "C08":
-		return []exploreGroup{{"lin", 2, 3}, {"tx", 2, 3}, {"hist", 2, 3}}
+		// "order": pipelines on one socket connection (C01's scenarios): the commands of one connection take
+		// effect and are answered in the order they were sent, whatever its goroutines do
+		return []exploreGroup{{"lin", 2, 3}, {"tx", 2, 3}, {"hist", 2, 3}, {"order", 2, 3}}
 	case "C09":
 		return []exploreGroup{{"tx", 2, 3}}
 	}
@@ -103,6 +105,8 @@ func exploreScenarios(id, group, tier string) []*Scenario {
 		return txScenarios(tier)
 	case "C08/hist":
 		return histScenarios(tier)
+	case "C08/order":
+		return orderScenarios(tier)
 	case "C08/racepairs":
 		// the command pairs of the race check, for C08's companion pass in the race build
 		var out []*Scenario
